@@ -3,7 +3,10 @@ package main
 import (
 	"fmt"
 	"go/ast"
+	"go/parser"
 	"go/token"
+	"io/fs"
+	"path/filepath"
 	"sort"
 	"strconv"
 	"strings"
@@ -449,6 +452,73 @@ func extractC20() *lean {
 	}
 	l.def("iamRequestBuilders", "List String", leanStrList(iamAll), iamAll)
 	l.def("iamURLCheckers", "List String", leanStrList(iamChecked), iamChecked)
+	// inventory over the whole repository (non-test, non-generated): raw net/http clients that bypass http/client,
+	// users of the http/client constructors, callers of loadFromFlagSet
+	var raw, ctorUsers, flagLoaders []string
+	_ = filepath.WalkDir(repo, func(path string, d fs.DirEntry, err error) error {
+		if err != nil {
+			return nil
+		}
+		name := d.Name()
+		if d.IsDir() {
+			if name == ".git" || name == "docs" || name == "e2e-tests" || name == "test" || name == "vendor" || name == "node_modules" {
+				return filepath.SkipDir
+			}
+			return nil
+		}
+		if !strings.HasSuffix(name, ".go") || strings.HasSuffix(name, "_test.go") || name == "generated.go" || strings.Contains(name, "mock") || name == "test.go" || strings.HasPrefix(name, "zz_verif") {
+			return nil
+		}
+		rel, _ := filepath.Rel(repo, path)
+		if strings.HasPrefix(rel, "vcr/pe/schema/gen") {
+			return nil
+		}
+		fset := token.NewFileSet()
+		f, perr := parser.ParseFile(fset, path, nil, 0)
+		if perr != nil {
+			return nil
+		}
+		ast.Inspect(f, func(n ast.Node) bool {
+			switch x := n.(type) {
+			case *ast.CompositeLit:
+				if exprString(x.Type) == "http.Client" && !strings.HasPrefix(rel, "http/client/") {
+					raw = append(raw, rel+":http.Client{}")
+				}
+			case *ast.SelectorExpr:
+				if exprString(x) == "http.DefaultClient" {
+					raw = append(raw, rel+":http.DefaultClient")
+				}
+			case *ast.CallExpr:
+				fn := c20Cond(x.Fun)
+				switch fn {
+				case "http.Get", "http.Post", "http.PostForm", "http.Head":
+					raw = append(raw, rel+":"+fn)
+				case "client.New", "client.NewWithCache", "client.NewWithTLSConfig":
+					ctorUsers = append(ctorUsers, rel+":"+fn)
+				case "loadFromFlagSet":
+					flagLoaders = append(flagLoaders, rel)
+				}
+			}
+			return true
+		})
+		return nil
+	})
+	sort.Strings(raw)
+	sort.Strings(ctorUsers)
+	sort.Strings(flagLoaders)
+	l.def("rawHTTPClientSites", "List String", leanStrList(raw), raw)
+	l.def("strictClientUsers", "List String", leanStrList(ctorUsers), ctorUsers)
+	l.def("flagSetLoaders", "List String", leanStrList(flagLoaders), flagLoaders)
+	// notary: how IRMA's production mode is derived
+	_, nt := parseFile("auth/services/notary/notary.go")
+	var irmaProd []string
+	ast.Inspect(nt, func(n ast.Node) bool {
+		if kv, ok := n.(*ast.KeyValueExpr); ok && exprString(kv.Key) == "Production" {
+			irmaProd = append(irmaProd, c20Cond(kv.Value))
+		}
+		return true
+	})
+	l.def("irmaProductionExprs", "List String", leanStrList(irmaProd), irmaProd)
 	_ = fmt.Sprint
 	return l
 }
